@@ -1,4 +1,6 @@
 import EinxModel.Proofs.Solve
+import EinxModel.Proofs.SolveCse
+import EinxModel.Extracted.Cse
 import EinxModel.Solve.Tree
 /-!
 C02 — axis and rank solving is sound, unambiguous and exact.
@@ -255,5 +257,365 @@ example : solveAll { tensors := [⟨.list [.ellipsis "e0" (.axis "a"), .ellipsis
 example : solveAll { tensors := [⟨.flat (.list [.axis "a", .axis "b"]), none⟩],
                      constraints := [⟨"a", [], [4294967296]⟩, ⟨"b", [], [4294967296]⟩] } =
     .unique [] [("#0", 18446744073709551616), ("b", 4294967296), ("a", 4294967296)] := by decide
+
+
+/-! ### Common-subexpression elimination (`stage2/cse.py`) is in the proved model
+
+`Solve/Cse.lean`: `valueRange` = `_value_range`, `hasRepeatedAxis` = `_has_repeated_axis`,
+`replaceable` = the filter of `cse`; `instantiate sys' c e` = the value system before CSE when
+`sys'` is the one after CSE replaced `e` by the axis `c` (`CseStep`, `Proofs/SolveCse.lean`). -/
+
+/-- `_has_repeated_axis` is `false` exactly when no axis name occurs twice. -/
+theorem hasRepeatedAxis_iff (e : VExpr) : hasRepeatedAxis e = false ↔ (axisNames e).Nodup :=
+  hasDup_false_iff _
+
+/-- **`_value_range` is exact, unbounded case.**  If `_value_range(e) = (m, True)` and no axis
+repeats in `e`, the values `e` takes when its unknown axes range over all admissible lengths are
+exactly the integers `>= m`. -/
+theorem valueRange_spec (e : VExpr) (m : Nat) (h : valueRange e = some (m, true))
+    (hrep : hasRepeatedAxis e = false) (hpos : MinPos e) (n : Nat) :
+    (∃ σ, Admissible e σ ∧ evalV σ e = n) ↔ m ≤ n := by
+  obtain ⟨_, hlow, hex⟩ := valueRange_spec_aux e m true h ((hasRepeatedAxis_iff e).mp hrep) hpos
+  constructor
+  · rintro ⟨σ, hσ, rfl⟩
+    have := hlow σ hσ
+    simpa [okT] using this
+  · intro hn
+    obtain ⟨σ, _, h2, h3⟩ := hex (fun _ => 0) n (by simpa [okT] using hn)
+    exact ⟨σ, h2, h3⟩
+
+/-- **`_value_range` is exact, single-value case**: `_value_range(e) = (m, False)` ⇒ the set of
+values is `{m}`. -/
+theorem valueRange_spec_fixed (e : VExpr) (m : Nat) (h : valueRange e = some (m, false))
+    (hrep : hasRepeatedAxis e = false) (hpos : MinPos e) (n : Nat) :
+    (∃ σ, Admissible e σ ∧ evalV σ e = n) ↔ n = m := by
+  obtain ⟨_, hlow, hex⟩ := valueRange_spec_aux e m false h ((hasRepeatedAxis_iff e).mp hrep) hpos
+  constructor
+  · rintro ⟨σ, hσ, rfl⟩
+    have := hlow σ hσ
+    simpa [okT] using this
+  · intro hn
+    obtain ⟨σ, _, h2, h3⟩ := hex (fun _ => 0) n (by simpa [okT] using hn)
+    exact ⟨σ, h2, h3⟩
+
+/-- Surjectivity with a frame: the witness assignment changes only the unknown axes of `e`
+(this is what lets a solution of the system after CSE be extended to one before CSE). -/
+theorem valueRange_surj (e : VExpr) (m : Nat) (h : valueRange e = some (m, true))
+    (hrep : hasRepeatedAxis e = false) (hpos : MinPos e) (σ₀ : Var → Nat) (n : Nat) (hn : m ≤ n) :
+    ∃ σ, (∀ x, x ∉ freeNames e → σ x = σ₀ x) ∧ Admissible e σ ∧ evalV σ e = n := by
+  obtain ⟨_, _, hex⟩ := valueRange_spec_aux e m true h ((hasRepeatedAxis_iff e).mp hrep) hpos
+  exact hex σ₀ n (by simpa [okT] using hn)
+
+/-- **CSE preserves the solution set.**  Let `sys'` be the value system after CSE replaced `e` by
+the axis `c` (`CseStep`), and `instantiate sys' c e` the system before.  Then
+(a) every solution before CSE is one after CSE with `c :=` value of `e`, and
+(b) every solution after CSE extends to one before CSE that differs only on the unknown axes of
+    `e`, whose product/sum is the value of `c`.
+`c` may occur any number of times in `sys'` (the `k >= 1` occurrences of `e`, also several in one
+product).  Several candidates (`cse.0`, `cse.1`, …) are handled by applying the theorem once per
+candidate: distinct candidates have disjoint axes (an axis shared by two candidates would occur
+outside one of them), so `CseStep.outside` holds at every step. -/
+theorem cse_preserves_sols (sys' : System) (c : Var) (e : VExpr) (m : Nat) (ub : Bool)
+    (hs : CseStep sys' c e m ub) :
+    (∀ σ, Sat (instantiate sys' c e) σ → Sat sys' (update σ c (evalV σ e))) ∧
+    (∀ σ', Sat sys' σ' → ∃ σ, (∀ x, x ∉ freeNames e → σ x = σ' x) ∧ evalV σ e = σ' c ∧
+        Sat (instantiate sys' c e) σ) := by
+  obtain ⟨_, hlow, hex⟩ :=
+    valueRange_spec_aux e m ub hs.range ((hasRepeatedAxis_iff e).mp hs.norep) hs.minpos
+  constructor
+  · intro σ hσ
+    obtain ⟨hb, he⟩ := hσ
+    have hadm : ∀ p ∈ freeAxes e, p.2 ≤ σ p.1 := fun p hp =>
+      hb p (by simp only [instantiate, List.mem_append]; exact Or.inr hp)
+    have hm : m ≤ evalV σ e := by
+      have := hlow σ hadm
+      cases ub <;> simp [okT] at this <;> omega
+    constructor
+    · intro p hp
+      by_cases hpc : p.1 = c
+      · have := hs.only p hp hpc
+        simp only [update, hpc, if_true]; omega
+      · have : p ∈ (instantiate sys' c e).vars := by
+          simp only [instantiate, List.mem_append, List.mem_filter]
+          exact Or.inl ⟨hp, by simpa using hpc⟩
+        simpa [update, hpc] using hb p this
+    · intro eq heq
+      have := he (substEqn c (polyOf e) eq) (by simp only [instantiate]; exact List.mem_map_of_mem heq)
+      simpa [substEqn, evalPoly_substPoly, evalPoly_polyOf] using this
+  · intro σ' hσ'
+    obtain ⟨hb, he⟩ := hσ'
+    have hm : m ≤ σ' c := hb (c, m) hs.decl
+    have hok : okT (m, ub) (σ' c) := by
+      cases hub : ub with
+      | true => simpa [okT] using hm
+      | false =>
+        have := he _ (hs.fixed hub)
+        simpa [okT, varConst, evalPoly, evalMono, prodVars] using this
+    obtain ⟨σ, h1, h2, h3⟩ := hex σ' (σ' c) hok
+    refine ⟨σ, h1, h3, ?_⟩
+    have hagree : ∀ x ∈ sys'.allVars, update σ c (evalV σ e) x = σ' x := by
+      intro x hx
+      by_cases hxc : x = c
+      · simp [update, hxc, h3]
+      · simp only [update, hxc, if_false]
+        exact h1 x (fun hf => hs.outside x hf hx)
+    constructor
+    · intro p hp
+      simp only [instantiate, List.mem_append, List.mem_filter] at hp
+      cases hp with
+      | inl hp =>
+        have hx : p.1 ∈ sys'.allVars := by
+          unfold System.allVars
+          exact List.mem_append_left _ (List.mem_map_of_mem hp.1)
+        have hpc : p.1 ≠ c := by simpa using hp.2
+        have := hagree p.1 hx
+        simp only [update, hpc, if_false] at this
+        rw [this]; exact hb p hp.1
+      | inr hp => exact h2 p hp
+    · intro eq heq
+      simp only [instantiate, List.mem_map] at heq
+      obtain ⟨eq', heq', rfl⟩ := heq
+      simp only [substEqn, evalPoly_substPoly, evalPoly_polyOf]
+      rw [evalPoly_congr (fun x hx => hagree x (mem_polyVars_allVars heq' (Or.inl hx))),
+          evalPoly_congr (fun x hx => hagree x (mem_polyVars_allVars heq' (Or.inr hx)))]
+      exact he eq' heq'
+
+/-- CSE does not change the verdict: the system before is solvable iff the system after is. -/
+theorem cse_solvable_iff (sys' : System) (c : Var) (e : VExpr) (m : Nat) (ub : Bool)
+    (hs : CseStep sys' c e m ub) :
+    (∃ σ, Sat (instantiate sys' c e) σ) ↔ (∃ σ', Sat sys' σ') := by
+  obtain ⟨ha, hb⟩ := cse_preserves_sols sys' c e m ub hs
+  constructor
+  · rintro ⟨σ, hσ⟩; exact ⟨_, ha σ hσ⟩
+  · rintro ⟨σ', hσ'⟩; obtain ⟨σ, _, _, h⟩ := hb σ' hσ'; exact ⟨σ, h⟩
+
+/-- CSE does not change what is reported outside the replaced sub-expression: a variable `x`
+other than `c` and the unknown axes of `e` (a root dimension, another axis, another node) is
+forced to `v` before CSE iff it is forced to `v` after CSE. -/
+theorem cse_forced_iff (sys' : System) (c : Var) (e : VExpr) (m : Nat) (ub : Bool)
+    (hs : CseStep sys' c e m ub) (x : Var) (hx : x ∉ freeNames e) (hxc : x ≠ c) (v : Nat) :
+    (∀ σ, Sat (instantiate sys' c e) σ → σ x = v) ↔ (∀ σ', Sat sys' σ' → σ' x = v) := by
+  obtain ⟨ha, hb⟩ := cse_preserves_sols sys' c e m ub hs
+  constructor
+  · intro h σ' hσ'
+    obtain ⟨σ, h1, _, h3⟩ := hb σ' hσ'
+    rw [← h1 x hx]; exact h σ h3
+  · intro h σ hσ
+    have := h _ (ha σ hσ)
+    simpa [update, hxc] using this
+
+/-- The replacement axis reports the value of the sub-expression: `c` is forced to `v` after CSE
+iff the value of `e` is forced to `v` before. -/
+theorem cse_value_forced_iff (sys' : System) (c : Var) (e : VExpr) (m : Nat) (ub : Bool)
+    (hs : CseStep sys' c e m ub) (v : Nat) :
+    (∀ σ, Sat (instantiate sys' c e) σ → evalV σ e = v) ↔ (∀ σ', Sat sys' σ' → σ' c = v) := by
+  obtain ⟨ha, hb⟩ := cse_preserves_sols sys' c e m ub hs
+  constructor
+  · intro h σ' hσ'
+    obtain ⟨σ, _, h2, h3⟩ := hb σ' hσ'
+    rw [← h2]; exact h σ h3
+  · intro h σ hσ
+    have := h _ (ha σ hσ)
+    simpa [update] using this
+
+/-- Transfer of the proved reference solver's verdicts across CSE: whatever `propagate` derives on
+the system *after* CSE — unsolvability, or a forced value of a variable outside `e` — holds for
+the system *before* CSE. -/
+theorem cse_propagate_sound (sys' : System) (c : Var) (e : VExpr) (m : Nat) (ub : Bool)
+    (hs : CseStep sys' c e m ub) :
+    (propagate sys' = .none → ¬ ∃ σ, Sat (instantiate sys' c e) σ) ∧
+    (∀ x v, (propagate sys').known.lookup x = some v → x ≠ c →
+      ∀ σ, Sat (instantiate sys' c e) σ → σ x = v) := by
+  obtain ⟨ha, _⟩ := cse_preserves_sols sys' c e m ub hs
+  constructor
+  · intro hn hex
+    exact propagate_none sys' hn ((cse_solvable_iff sys' c e m ub hs).mp hex)
+  · intro x v hk hxc σ hσ
+    have := propagate_forced sys' _ (ha σ hσ) x v hk
+    simpa [update, hxc] using this
+
+/-! What CSE does **not** preserve: the unknown axes *inside* `e` are no variables of the system
+after CSE.  Before CSE they may be forced (`(b 1)` against 5 forces `b = 5`) or ambiguous (`(b c)`
+against 6) — after CSE neither is visible.  This is by design: `solve_axes` (which reports every
+axis) runs with `cse=False`; `solve_shapes`, `matches` and the operations run with `cse=True`,
+and their stage-3 trees contain the axis `cse.<n>` in place of `e`, so only quantities outside `e`
+and the value of `e` itself (`cse_value_forced_iff`) are reported.  Examples below. -/
+
+/-! #### Non-vacuity and the D3 witnesses -/
+
+/-- `b c`, `b 3`, `a a`, `a + b` as stage-2 expressions (the literal `3` is an unnamed axis). -/
+def exBC : VExpr := .list [.axis "b" none 1, .axis "c" none 1]
+def exB3 : VExpr := .list [.axis "b" none 1, .axis "unnamed.0" (some 3) 1]
+def exAA : VExpr := .list [.axis "a" none 1, .axis "a" none 1]
+def exAplusB : VExpr := .concat [.axis "a" none 1, .axis "b" none 1]
+/-- `(a + b) c d 1`: the product rule with one child of minimum 2 -/
+def exMixed : VExpr :=
+  .list [.flat (.concat [.axis "a" none 1, .axis "b" none 1]), .axis "c" none 1, .axis "d" none 1,
+         .axis "unnamed.1" (some 1) 1]
+
+example : valueRange exBC = some (1, true) ∧ replaceable exBC = true := by decide
+example : valueRange exAplusB = some (2, true) ∧ replaceable exAplusB = true := by decide
+example : valueRange exMixed = some (2, true) ∧ replaceable exMixed = true := by decide
+example : valueRange (.list [.axis "u" (some 2) 1, .axis "v" (some 3) 1]) = some (6, false) := by decide
+/-- two children with minimum above 1: `(a + b) (c + d)` takes no prime value -/
+example : valueRange (.list [exAplusB, .concat [.axis "c" none 1, .axis "d" none 1]]) = none := by decide
+
+/-- **D3, fixed code**: `b 3` is not replaced (`_value_range` is `None`: only multiples of 3);
+`a a` is not replaced (repeated axis), although its range alone would pass. -/
+example : valueRange exB3 = none ∧ replaceable exB3 = false := by decide
+example : valueRange exAA = some (1, true) ∧ hasRepeatedAxis exAA = true ∧ replaceable exAA = false := by decide
+
+/-- `valueRange_spec` applies to `(a + b) c d 1`: its values are exactly the integers `>= 2`. -/
+example (n : Nat) : (∃ σ, Admissible exMixed σ ∧ evalV σ exMixed = n) ↔ 2 ≤ n :=
+  valueRange_spec exMixed 2 (by decide) (by decide) (by decide) n
+
+example (n : Nat) : (∃ σ, Admissible (.list [.axis "u" (some 2) 1, .axis "v" (some 3) 1]) σ ∧
+    evalV σ (.list [.axis "u" (some 2) 1, .axis "v" (some 3) 1]) = n) ↔ n = 6 :=
+  valueRange_spec_fixed _ 6 (by decide) (by decide) (by decide) n
+
+/-- The value system of `a (cse.0), (cse.0) d` against `(2, 6), (6, 5)` — after CSE. -/
+def exAfter : Input :=
+  { tensors := [⟨.list [.axis "a", .flat (.axis "cse.0")], some [2, 6]⟩,
+                ⟨.list [.flat (.axis "cse.0"), .axis "d"], some [6, 5]⟩],
+    constraints := [] }
+/-- `a (b c), (b c) d` against the same shapes — before CSE. -/
+def exBefore : Input :=
+  { tensors := [⟨.list [.axis "a", .flat (.list [.axis "b", .axis "c"])], some [2, 6]⟩,
+                ⟨.list [.flat (.list [.axis "b", .axis "c"]), .axis "d"], some [6, 5]⟩],
+    constraints := [] }
+
+/-- `instantiate` of the model's own value system after CSE *is* (equations identical, the same
+declarations) the model's own value system before CSE. -/
+example : (instantiate (valueSystemA exAfter []) "cse.0" exBC).eqns = (valueSystemA exBefore []).eqns ∧
+    (∀ p ∈ (instantiate (valueSystemA exAfter []) "cse.0" exBC).vars, p ∈ (valueSystemA exBefore []).vars) ∧
+    (∀ p ∈ (valueSystemA exBefore []).vars, p ∈ (instantiate (valueSystemA exAfter []) "cse.0" exBC).vars) := by
+  decide
+
+/-- The hypotheses of `cse_preserves_sols` are met by this instance. -/
+theorem exAfter_step : CseStep (valueSystemA exAfter []) "cse.0" exBC 1 true where
+  range := by decide
+  norep := by decide
+  minpos := by decide
+  decl := by decide
+  only := by decide
+  fixed := by intro h; cases h
+  outside := by decide
+
+/-- … and its conclusion is not empty: after CSE the solver reaches `unique`; before CSE every
+root dimension and `a`, `d` are therefore forced to the same values, while `b`, `c` stay ambiguous
+(the reference solver is `stuck` on them) — the purpose of CSE. -/
+example : propagate (valueSystemA exAfter []) =
+    .unique [("d", 5), ("#1/0", 6), ("cse.0", 6), ("#0/1", 6), ("a", 2)] := by decide
+example : ∀ σ, Sat (instantiate (valueSystemA exAfter []) "cse.0" exBC) σ → σ "d" = 5 ∧ σ "#0/1" = 6 := by
+  intro σ hσ
+  have h := (cse_propagate_sound _ _ _ _ _ exAfter_step).2
+  exact ⟨h "d" 5 (by decide) (by decide) σ hσ, h "#0/1" 6 (by decide) (by decide) σ hσ⟩
+example : propagate (instantiate (valueSystemA exAfter []) "cse.0" exBC) =
+    .stuck [("d", 5), ("#1/0", 6), ("#0/1", 6), ("a", 2)] := by decide
+
+/-- Not preserved, other direction: `(b 1)` against 5 forces the inner axis `b = 5` before CSE;
+after CSE (`(cse.0)` against 5) `b` is not a variable any more. -/
+def exB1 : VExpr := .list [.axis "b" none 1, .axis "unnamed.0" (some 1) 1]
+def exAfterB1 : System := valueSystemA { tensors := [⟨.flat (.axis "cse.0"), some [5]⟩], constraints := [] } []
+example : replaceable exB1 = true ∧
+    propagate (instantiate exAfterB1 "cse.0" exB1) = .unique [("b", 5), ("#0", 5)] ∧
+    "b" ∉ exAfterB1.allVars := by decide
+
+/-- **D3, old code** (every candidate replaced by a free axis with minimum 1) was unsound:
+`(b 3)` against 4.  After the old replacement the system `(cse.0) = 4` has a solution; before it
+there is none. -/
+def exOldB3 : System := valueSystemA { tensors := [⟨.flat (.axis "cse.0"), some [4]⟩], constraints := [] } []
+example : (∃ σ', Sat exOldB3 σ') ∧ ¬ ∃ σ, Sat (instantiate exOldB3 "cse.0" exB3) σ := by
+  constructor
+  · exact ⟨toFun [("cse.0", 4), ("#0", 4)], ((checkSat_iff _ _).mp (by decide)).2⟩
+  · exact propagate_none _ (by decide)
+
+/-- D3, old code, `(a a)` against 8: after the old replacement `(cse.0) = 8` has a solution; before it
+`a * a = 8` has none (squareness is lost) — the reason for the `_has_repeated_axis` half of the filter. -/
+def exOldAA : System := valueSystemA { tensors := [⟨.flat (.axis "cse.0"), some [8]⟩], constraints := [] } []
+example : (∃ σ', Sat exOldAA σ') ∧ ¬ ∃ σ, Sat (instantiate exOldAA "cse.0" exAA) σ := by
+  constructor
+  · exact ⟨toFun [("cse.0", 8), ("#0", 8)], ((checkSat_iff _ _).mp (by decide)).2⟩
+  · rintro ⟨σ, _, he⟩
+    have e : (instantiate exOldAA "cse.0" exAA).eqns =
+        [⟨[⟨1, ["#0"]⟩], [⟨1, ["a", "a"]⟩]⟩, ⟨[⟨1, ["#0"]⟩], [⟨8, []⟩]⟩] := by decide
+    rw [e] at he
+    have h1 := he _ (List.mem_cons_self)
+    have h2 := he _ (List.mem_cons_of_mem _ List.mem_cons_self)
+    simp [evalPoly, evalMono, prodVars] at h1 h2
+    rw [h2] at h1
+    rcases Nat.lt_or_ge (σ "a") 3 with h | h
+    · have : σ "a" = 0 ∨ σ "a" = 1 ∨ σ "a" = 2 := by omega
+      rcases this with h' | h' | h' <;> rw [h'] at h1 <;> omega
+    · have := Nat.mul_le_mul h h
+      omega
+
+/-- D3, old code, `c (a + b)` against `(2, 1)`: replaced by a free axis with minimum 1 the system
+has the solution `cse.0 = 1`; before the replacement `a + b = 1` has none.  With the recorded
+minimum 2 (`min_value`, checked by stage3/solve.py) the system after CSE has none either. -/
+def exOldSum (minValue : Nat) : System :=
+  { vars := [("c", 1), ("cse.0", minValue)], eqns := [varConst "c" 2, varConst "cse.0" 1] }
+example : (∃ σ', Sat (exOldSum 1) σ') ∧ ¬ (∃ σ, Sat (instantiate (exOldSum 1) "cse.0" exAplusB) σ) ∧
+    propagate (exOldSum 2) = .none := by
+  refine ⟨⟨toFun [("c", 2), ("cse.0", 1)], ((checkSat_iff _ _).mp (by decide)).2⟩, ?_, by decide⟩
+  rintro ⟨σ, hb, he⟩
+  have e : instantiate (exOldSum 1) "cse.0" exAplusB =
+      { vars := [("c", 1), ("a", 1), ("b", 1)],
+        eqns := [⟨[⟨1, ["c"]⟩], [⟨2, []⟩]⟩, ⟨[⟨1, ["a"]⟩, ⟨1, ["b"]⟩], [⟨1, []⟩]⟩] } := by decide
+  rw [e] at hb he
+  have h1 := hb ("a", 1) (by decide)
+  have h2 := hb ("b", 1) (by decide)
+  have h3 := he ⟨[⟨1, ["a"]⟩, ⟨1, ["b"]⟩], [⟨1, []⟩]⟩ (by decide)
+  simp [evalPoly, evalMono, prodVars] at h1 h2 h3
+  omega
+
+
+/-! #### Obligations over the regenerated source facts (`Extracted/Cse.lean`, from /repo on every run) -/
+
+/-- The `Axis` rule of `_value_range` as translated from the source is the model's. -/
+theorem extracted_axis_rule (n : String) (v : Option Nat) (m : Nat) :
+    valueRange (.axis n v m) = some (Extracted.Cse.valueRangeAxis v m) := by
+  cases v <;> rfl
+
+/-- The combination rule of `_value_range` (any-None guard, sum rule, product of constants, product
+rule) as translated from the source is `combineRanges`, for all inputs. -/
+theorem extracted_combine_eq (isConcat : Bool) (ranges : List (Option (Nat × Bool))) :
+    Extracted.Cse.valueRangeCombine isConcat ranges = combineRanges isConcat ranges := by
+  simp only [Extracted.Cse.valueRangeCombine, combineRanges, unboundedMins, fixedMins, beq_iff_eq]
+  rfl
+
+mutual
+/-- **The model's `valueRange` is the source's `_value_range`** (as translated on this run), on
+every expression. -/
+theorem extracted_valueRange_eq : ∀ e : VExpr, Extracted.Cse.valueRangeX e = valueRange e
+  | .axis n v m => by
+    simp only [Extracted.Cse.valueRangeX]; exact (extracted_axis_rule n v m).symm
+  | .flat e => by simp only [Extracted.Cse.valueRangeX, valueRange]; exact extracted_valueRange_eq e
+  | .brackets e => by simp only [Extracted.Cse.valueRangeX, valueRange]; exact extracted_valueRange_eq e
+  | .list cs => by
+    simp only [Extracted.Cse.valueRangeX, valueRange, extracted_combine_eq]; rw [extracted_valueRanges_eq cs]
+  | .concat cs => by
+    simp only [Extracted.Cse.valueRangeX, valueRange, extracted_combine_eq]; rw [extracted_valueRanges_eq cs]
+theorem extracted_valueRanges_eq : ∀ cs : List VExpr, Extracted.Cse.valueRangesX cs = valueRanges cs
+  | [] => by simp [Extracted.Cse.valueRangesX, valueRanges]
+  | c :: cs => by
+    simp only [Extracted.Cse.valueRangesX, valueRanges]
+    rw [extracted_valueRange_eq c, extracted_valueRanges_eq cs]
+end
+
+/-- The filter `replaceable` is in the source: `cse` keeps a candidate only if every occurrence
+passes `_value_range(…) is not None and not _has_repeated_axis(…)`, nothing enlarges the candidate
+list afterwards, and `_has_repeated_axis` is the duplicate test over all axis names. -/
+theorem extracted_cse_filter :
+    Extracted.Cse.filterPresent = true ∧ Extracted.Cse.filterFinal = true ∧
+    Extracted.Cse.hasRepeatedAxisRecognised = true := by decide
+
+/-- The `decl` / `only` / `fixed` hypotheses of `CseStep` are in the source: the replacement axis
+is built with `min_value=_value_range(…)[0]` and the value of what it replaces, `stage2.Axis`
+keeps `min_value` (default 1), and stage 3 rejects a value below `min_value`. -/
+theorem extracted_cse_min_value :
+    Extracted.Cse.replacementRecordsMin = true ∧ Extracted.Cse.replacementKeepsValue = true ∧
+    Extracted.Cse.stage3ChecksMin = true ∧ Extracted.Cse.axisDefaultMin = 1 ∧
+    Extracted.Cse.axisKeepsMin = true := by decide
 
 end Einx.Solve
